@@ -86,7 +86,19 @@ impl Q32E2 {
 
     #[inline]
     pub fn neg(&mut self) {
-        self.0 = self.0.wrapping_neg();
+        // two's complement of the whole 512-bit value (as in `fdp`), not of the top limb only
+        let mut bits = self.to_bits();
+        let mut j = bits.iter_mut().rev();
+        while let Some(u) = j.next() {
+            if *u > 0 {
+                *u = u.wrapping_neg();
+                for w in j {
+                    *w = !*w;
+                }
+                break;
+            }
+        }
+        *self = Self::from_bits(bits);
     }
 
     #[inline]
